@@ -37,6 +37,7 @@ type hookProgram struct {
 	OmitStatus       bool    `json:"omitStatus"`
 	CustomizeBody    string  `json:"customizeBody"` // answer of the customize hook (default: no related resources)
 	Reverse          bool    `json:"reverse"`       // template: list the children highest index first
+	FinalizedForImage string `json:"finalizedForImage"` // template, finalizing: finalized iff the parent (revision) has this image
 }
 
 func (h *hookProgram) answer(url string, req J) (int, map[string]string, []byte, bool) {
@@ -145,6 +146,9 @@ func (h *hookProgram) templateAnswer(req J) []byte {
 			}
 		}
 		resp["finalized"] = observed == 0
+		if h.FinalizedForImage != "" {
+			resp["finalized"] = image == h.FinalizedForImage
+		}
 	}
 	body, _ := k8sjson.Marshal(resp)
 	return body
@@ -249,7 +253,13 @@ func (w *cworld) applyExt(op extOp) {
 		for _, o := range w.srv.AllLive() {
 			if o["apiVersion"] == op.APIVersion && o["kind"] == op.Kind {
 				g, _ := md(o)["generation"].(int64)
-				st := J{"conditions": A{J{"type": "Ready", "status": "True"}}}
+				cond := J{"type": "Ready", "status": "True"}
+				if op.Data != nil {
+					if rs, ok := op.Data["reason"].(string); ok {
+						cond["reason"] = rs
+					}
+				}
+				st := J{"conditions": A{cond}}
 				if op.Data == nil || op.Data["noObservedGeneration"] != true {
 					st["observedGeneration"] = g
 				}
@@ -269,6 +279,7 @@ type roundSpec struct {
 	Faults map[string]J       `json:"faults"`   // request index -> {code, reason}
 	LateOps []extOp           `json:"lateOps"`  // after the caches are taken, before the sync starts
 	FaultOn []faultOn         `json:"faultOn"`  // faults aimed at a kind of request rather than a position
+	Requeues int              `json:"requeues"` // what the work queue reports as earlier failures of this key
 }
 
 type faultOn struct {
@@ -443,6 +454,7 @@ func runScenario(sc *scenario) (*caseRec, error) {
 			}
 			return nil
 		})
+		b.queue.Requeues = r.Requeues
 		rec := w.runSync(&sc.Ctl, b, key)
 		w.srv.SetBeforeRequest(nil)
 		b.close()
